@@ -2,6 +2,7 @@
 Bound: 3 directories (<= 3 files each, one file shared), histories of <= 5 operations drawn from
 {push subset (closed request), push with an upload fault, external deletion of one remote object / of one directory object / of everything, status query}; n histories (seeded)."""
 import logging; logging.disable(logging.CRITICAL)
+import _memfs  # noqa: E402
 import json, os, random, sys, tempfile
 from contextlib import closing
 SRC = os.environ.get("PYVC_REPO_SRC", "/repo/src")
@@ -27,6 +28,7 @@ def main(n, seed):
     rnd = random.Random(seed)
     fails, distinct = [], set()
     for case in range(n):
+        _memfs.reset()
         with tempfile.TemporaryDirectory(dir="/var/tmp") as tmp:
             fs = LocalFileSystem()
             cache = HashFileDB(fs, os.path.join(tmp, "cache"))
